@@ -146,7 +146,16 @@ def c15(tier):
     return c
 
 
-CHECKS = {"C13": c13, "C14": c14, "C15": c15, "C05": c05, "C12": c12, "C01": c01, "C02": c02, "C03": c03, "C04": c04, "C08": c08, "C10": c10}
+def c16(tier):
+    c = _topo("C16", 16, tier, 40, 1500)
+    c.rule = ("one evaluation = one history in which diff ops take a private annotated copy A of a replica, derive B by seeded representable "
+              "(rename, info value, local memory, topology info) and non-representable edits, then build/apply/re-build/reverse, persist the diff as XML "
+              "(file or buffer, both back-ends as process classes) and apply chained lists with one poisoned entry for roll-back; "
+              "distinct_nontrivial = distinct (canonical dump after an op, op kind) pairs")
+    return c
+
+
+CHECKS = {"C16": c16, "C13": c13, "C14": c14, "C15": c15, "C05": c05, "C12": c12, "C01": c01, "C02": c02, "C03": c03, "C04": c04, "C08": c08, "C10": c10}
 
 
 # ------------------------------------------------------------------------------------------------ C17 (scheduler machine)
